@@ -81,12 +81,36 @@ matched by signature; a violation whose signature is not listed exits 1.
 
 ### 9.5 Seeded changes
 
-Sixty changes were written by twenty sub-agents, one per property; each agent saw only the property's text and a
-scratch worktree of /repo, never /verif. Each change passes the repo's suite (331 tests) and comes with a
-demonstration script that fails on the changed tree and passes on the unchanged one. I applied every one to /repo,
-ran the property's quick check and reverted it. The per-property lists above give the outcome of each; checks that
-missed a change were strengthened (the strengthening is noted in the entry) and the change was run again. A change
-that is caught only as a broken correspondence (`no-failing-input-found`) is listed as such.
+Two rounds, 120 changes in all, were written by sub-agents - one agent per property and round. Each agent saw only
+the property's text (statement, quantifier, code anchors) and a scratch git worktree of /repo, never /verif. Each
+change passes the repo's suite (331 tests) and comes with a demonstration script that exits 1 on the changed tree and
+0 on the unchanged one (both verified again here). Every change was applied to /repo's working tree, the property's
+quick check was run, and the change was reverted (`harness/seeded_eval.py` repeats this; nothing was ever committed
+to /repo). They are kept under `seeded/<id>/mK` (round 1) and `seeded/<id>/r2mK` (round 2) with `patch.diff`,
+`demo.py` and `meta.json`; `meta.json.history` records the verdict of every evaluation.
+
+* Round 1, first evaluation: 38 of 60 caught with a failing input, 3 caught only as a broken correspondence
+  (`no-failing-input-found`), 19 missed. Round 2 (after the round-1 strengthening), first evaluation: 43 of 60 caught
+  with a failing input, 1 only as a broken correspondence, 16 missed.
+* Every miss was traced to the reason the check could not see the change, and the check - never the property - was
+  changed. The recurring reasons were: (a) generator blind spots - tables always filled in ascending offset order,
+  no scope-wide registrations mixed with `insert_at`, no module-level tables (PE safe-SEH, DT_INIT/DT_FINI), no
+  `register_insert_function`, no zero-sized blocks in the input, no second section or byte interval, no
+  partly-initialized intervals, no overlapping blocks, no blocks that start behind uncovered bytes, function names
+  that are not regular-expression look-alikes, no operands with both an addend and a target-specific variant, no
+  memory-indirect jumps, no patch constraints, no suffixes in the assembler runs; (b) oracles that took a value from
+  the code under test where the property gives it independently - the set of registers to restore (C16), the
+  patch's own expressions (C04), which recorded operation belongs to which request (C01), attribute conversion and
+  edge retargeting (C18), untouched expressions (C19); (c) a domain predicate that was too coarse (C03/C09 judged
+  "code runs off the end" per request instead of on the final state of the block).
+* After the strengthening all 120 are caught with a failing input; the per-property lists above show each change and
+  both verdicts. Two things the strengthened checks found on the *unchanged* tree are recorded in
+  `known_findings.json`: the DT_INIT typo in `_can_remove_block` (repaired, d4827ab) and the missing fallthrough
+  edge when a batch removes a block's terminator - or appends code that does not end in one - and then inserts code
+  at that same end (recorded, C03). One specification clause was relaxed with the reason stated in the runner's
+  ASSUMPTIONS (C05: a patch's branch-target label at the very end of its byte interval has to stay on a zero-sized
+  block; C08: an insertion exactly at a `.cfi_startproc` that is keyed to the end of the preceding block is not
+  judged for coverage).
 """
 
 BEGIN = "<!-- BEGIN AS-BUILT (generated by harness/design_gen.py; edit the sources, not this part) -->"
